@@ -9,6 +9,7 @@ R11.6  the generator rescues / seeds the registry under the file name the emitte
 R11.7  emitted line lists are joined with a real line break (a one-line `__init__.py` re-exports nothing)                    [= R1.20]
 R11.5  a removal of the output package that precedes the exception emitter carries the registry of a contained core over (read before, written back after)
 R11.4  the import header of the regenerated alias file covers every base class the union of codes can need
+R11.8  no delete operation of the generator targets a path derived from the core package (other clients may live below the core / import its modules)
 R11.3  core emission is additive: the core/exception emitters never delete, and always (re)write what they own
 """
 from __future__ import annotations
@@ -304,7 +305,44 @@ def check_emit_regeneration(repo: Repo, rep, rule: str = "R11.1") -> None:
 
 
 
+def rule_nothing_deleted_below_the_core(repo: Repo, rep, rule: str = "R11.8") -> None:
+    """The core directory belongs to every client registered in it, and with an ancestor core package (`core_package="acme"`, clients
+    `acme.billing`, `acme.orders`) the other clients live *below* it.  The generator may replace its own output package; a delete
+    (`unlink`, `remove`, `rmtree`, `rmdir`) whose target is derived from the core package option removes what this run did not write - files
+    of other clients, or core modules they import.  Decided over the generation function and the private helpers of its class."""
+    from rules.c10 import generation_function
+    from rules._memo import name_closure
+
+    gen = generation_function(repo)
+    fns = [gen] + [m for m in (gen.cls.methods.values() if gen.cls is not None else []) if m is not gen and m.name.startswith("_")]
+    n = 0
+    for fn in fns:
+        params = {a.arg for a in fn.node.args.args + fn.node.args.kwonlyargs}  # type: ignore[attr-defined]
+        for c in calls_in(fn.node):
+            d = dotted(c.func) or ""
+            tgt = None
+            if d in ("shutil.rmtree", "os.remove", "os.unlink", "os.rmdir", "os.removedirs") and c.args:
+                tgt = c.args[0]
+            elif isinstance(c.func, ast.Attribute) and c.func.attr in ("unlink", "rmdir") and not d.startswith("os."):
+                tgt = c.func.value
+            if tgt is None:
+                continue
+            n += 1
+            deps = name_closure(fn.node, {x.id for x in ast.walk(tgt) if isinstance(x, ast.Name)})
+            core_derived = {x for x in deps if "core" in x.lower() and (x in params or any(
+                isinstance(st, (ast.Assign, ast.AnnAssign)) and any(isinstance(t, ast.Name) and t.id == x for t in (st.targets if isinstance(st, ast.Assign) else [st.target])) for st in own_nodes(fn.node)))}
+            sub = f"{fn.module.relpath}:{fn.qualname} delete `{norm(c)[:50]}`"
+            if core_derived:
+                rep.violation(rule, sub, f"{fn.fq}|delete-below-core|{d or c.func.attr}",  # type: ignore[union-attr]
+                              f"the target of this delete derives from the core package ({sorted(core_derived)[0]}): with a core that is an ancestor package of other clients, or a core module "
+                              "another client still imports, generating this client removes files it did not write", fn.loc(c))
+            else:
+                rep.ok(rule, sub, "the target is derived from the output package of this run only", fn.loc(c))
+    rep.require(n >= 1, f"{rule}: no delete operation found in the generator class (the removal of the output package is the anchor)")
+
+
 def run(repo: Repo, rep: Report, tier: str) -> None:
+    rule_nothing_deleted_below_the_core(repo, rep, "R11.8")
     mod = repo.module(EE)
     cls = mod.classes.get("ExceptionsEmitter")
     if cls is None:
